@@ -347,6 +347,7 @@ func init() { registerReplay("C20", propC20) }
 
 const c20Rule = "rapid-generated: stream kind x direction (client->handler, handler->client) x 1..64 attempted sends x payload size (0..100 KB; fixed cases 40 x 256 KiB, thorough 48 x 1 MiB) x pending header frame or not x first consuming call Header() or RecvMsg x receiver schedule (per quiescent point 0..3 receives) x ending (peer finishes / context cancelled); " +
 	"oracle: at every observation sendsDone <= takers + 1, where takers counts frame-consuming calls before they start (2 per client RecvMsg of a single-response method); with the receiver idle and the sender parked (runtime.Stack state) that means <= 1 completed send however many were attempted; live heap of the stalled stream <= 6 x size + 4 MiB after GC; the parked sender returns within 20 s of the ending event; " +
+	"also generated since the seeded rounds: an unread header/message in the other direction, Header() with and without a pending header frame, request flooding of a server-streaming method through a raw bidi descriptor, grpc.Header/Trailer/Peer call options in every combination; " +
 	"non-trivial = >= 3 attempted sends and the receiver idle at least once while sends remained; distinct by case hash"
 
 func TestC20(t *testing.T) {
